@@ -25,7 +25,7 @@ def oriented_cases(seed, n, size="small"):
         if b["oriented"] and b["manifold"] and len(np.unique(c["t"])) == len(c["v"]):
             rng = gen.rng_for(seed, "c17", k); k += 1
             v = c["v"] if c["name"] in ("icosphere", "octahedron", "cylinder") and rng.random() < 0.5 else gen.jitter(rng, c["v"], 0.01)
-            yield dict(v=v, t=c["t"], name=c["name"], smoothit=int(rng.integers(0, 11)))
+            yield dict(v=v, t=c["t"], name=c["name"], smoothit=int(rng.integers(0, 11)), pres=c.get("pres"))
             if k >= n:
                 return
 
@@ -46,6 +46,7 @@ class Check(BaseCheck):
         fails = []
         for case in oriented_cases(self.seed + 121, 10 if self.quick else 120):
             v, t, sm = case["v"], case["t"], case["smoothit"]
+            gen.use(case)
             stats.case(core.mesh_key(v, t, sm), cls=["class:" + case["name"], "smoothit:%d" % sm], sample=dict(name=case["name"], nv=len(v), smoothit=sm))
             try:
                 m, calls, out, vn = run_curv(v, t, sm)
